@@ -1514,9 +1514,43 @@ class Bounds:
                 dd = self.cg.dominating_def(e, f)
                 if dd is not None and not any(isinstance(x, ast.Name) and x.id == e.id for x in ast.walk(dd)):
                     return self.eval(dd, f, depth + 1)
-                return self._tuple_def_bounds(e, f)
+                tb = self._tuple_def_bounds(e, f)
+                if tb != TOP:
+                    return tb
+                return self._accumulator_bounds(e.id, f, depth)
             return TOP
         return TOP
+
+    def _accumulator_bounds(self, name, f, depth):
+        """a local that is only ever bound by `name = <const>` and `name += <non-negative>` (flow-insensitive)"""
+        if any(p.arg == name for p in self.cg._params_of(f)):
+            return TOP
+        lo = None
+        for n in own_nodes(f.node):
+            if isinstance(n, ast.Assign):
+                for t in n.targets:
+                    if isinstance(t, ast.Name) and t.id == name:
+                        v = self.fold(n.value, f)
+                        if isinstance(v, int) and not isinstance(v, bool):
+                            lo = v if lo is None else min(lo, v)
+                        else:
+                            return TOP
+                    elif any(isinstance(x, ast.Name) and x.id == name and isinstance(x.ctx, ast.Store) for x in ast.walk(t)):
+                        return TOP
+            elif isinstance(n, ast.AugAssign) and isinstance(n.target, ast.Name) and n.target.id == name:
+                if not isinstance(n.op, ast.Add) or any(isinstance(x, ast.Name) and x.id == name for x in ast.walk(n.value)):
+                    return TOP
+                if self.eval(n.value, f, depth + 1)[0] < 0:
+                    return TOP
+            elif isinstance(n, ast.Name) and n.id == name and isinstance(n.ctx, (ast.Store, ast.Del)):
+                p = parent(n)
+                if not isinstance(p, (ast.Assign, ast.AugAssign)):
+                    return TOP
+            elif isinstance(n, ast.ExceptHandler) and n.name == name:
+                return TOP
+        if lo is None:
+            return TOP
+        return (lo, INF)
 
     def _tuple_def_bounds(self, name_node, f):
         """`a, b = unpack(fmt, ...)` dominating the use: bounds of the slot"""
@@ -1769,20 +1803,31 @@ class Bounds:
 # =============================================================================
 # Stream-position abstract interpretation
 # =============================================================================
+_TOKEN = [0]
+
+
+def _new_token():
+    _TOKEN[0] += 1
+    return _TOKEN[0]
+
+
 class SState:
     """abstract state: per stream key the position interval relative to the base point and the
     number of anchored checked bytes; `saved` maps expression text -> (key, lo, hi) for values known
     to equal base_position(key) + [lo, hi]."""
-    __slots__ = ("pos", "anch", "saved", "kend")
+    __slots__ = ("pos", "anch", "saved", "kend", "tok", "stok", "absp")
 
-    def __init__(self, pos=None, anch=None, saved=None, kend=None):
+    def __init__(self, pos=None, anch=None, saved=None, kend=None, tok=None, stok=None, absp=None):
+        self.absp = absp or {}   # key -> (parameter name, lo, hi): position == value of that parameter + [lo, hi]
         self.pos = pos or {}
         self.anch = anch or {}
         self.saved = saved or {}
         self.kend = kend or {}   # key -> relative offset up to which bytes are known to exist (a checked read got that far)
+        self.tok = tok or {}     # key -> token, renewed by every operation that may move the stream
+        self.stok = stok or {}   # saved name -> token of its stream at the time the value was taken
 
     def copy(self):
-        return SState(dict(self.pos), dict(self.anch), dict(self.saved), dict(self.kend))
+        return SState(dict(self.pos), dict(self.anch), dict(self.saved), dict(self.kend), dict(self.tok), dict(self.stok), dict(self.absp))
 
     def p(self, key):
         return self.pos.get(key, ZERO)
@@ -1799,7 +1844,7 @@ class SState:
     def _norm(self):
         ks = self.keys()
         return ({k: self.p(k) for k in ks if self.p(k) != ZERO}, {k: self.a(k) for k in ks if self.a(k)}, self.saved,
-                {k: v for k, v in self.kend.items() if v != -INF})
+                {k: v for k, v in self.kend.items() if v != -INF}, self.absp)
 
     def __repr__(self):
         return "S(%s)" % ", ".join("%s:%s/a%d" % (k, iv_str(self.p(k)), self.a(k)) for k in sorted(self.keys()))
@@ -1819,6 +1864,14 @@ def s_join(a, b):
             out.saved[n] = (k, min(lo, b.saved[n][1]), max(hi, b.saved[n][2]))
     for k in set(a.kend) & set(b.kend):
         out.kend[k] = min(a.kend[k], b.kend[k])
+    for k in set(a.tok) | set(b.tok):
+        out.tok[k] = a.tok[k] if a.tok.get(k, 0) == b.tok.get(k, 0) else _new_token()
+    for n in set(a.stok) & set(b.stok):
+        if a.stok[n] == b.stok[n]:
+            out.stok[n] = a.stok[n]
+    for k in set(a.absp) & set(b.absp):
+        if a.absp[k][0] == b.absp[k][0]:
+            out.absp[k] = (a.absp[k][0], min(a.absp[k][1], b.absp[k][1]), max(a.absp[k][2], b.absp[k][2]))
     return out
 
 
@@ -1835,6 +1888,14 @@ def s_widen(old, new):
     for k, v in old.kend.items():
         if new.kend.get(k, -INF) >= v:
             out.kend[k] = v
+    for k in set(old.tok) | set(new.tok):
+        out.tok[k] = old.tok[k] if old.tok.get(k, 0) == new.tok.get(k, 0) else _new_token()
+    for n, v in old.stok.items():
+        if new.stok.get(n) == v:
+            out.stok[n] = v
+    for k, v in old.absp.items():
+        if new.absp.get(k) == v:
+            out.absp[k] = v
     return out
 
 
@@ -1857,9 +1918,11 @@ class Summary:
         self.touches = False  # closure reads/seeks some stream
         self.facts = {}       # (constructors) attr text 'self.x' -> (key, lo, hi): attribute holds position of key at entry + [lo,hi]
         self.unresolved = []  # calls that receive a stream but could not be resolved
+        self.abs = {}         # key -> (parameter, lo, hi): on return the stream is at <value of parameter> + [lo, hi]
 
     def sig(self):
-        return (tuple(sorted(self.keys.items())), self.returns, self.wild, self.has_seek, self.touches, tuple(sorted(self.facts.items())))
+        return (tuple(sorted(self.keys.items())), self.returns, self.wild, self.has_seek, self.touches, tuple(sorted(self.facts.items())),
+                tuple(sorted(self.abs.items())))
 
     def __repr__(self):
         return "Summary(%s%s%s%s)" % (
@@ -2073,7 +2136,9 @@ class StreamAnalysis:
             p, a = exit_state.p(key), exit_state.a(key)
             if root in params or (sn is not None and root == sn):
                 s.keys[key] = (p[0], p[1], a)
-                if not (root in params and "." not in key) and p[0] < 0:
+                if key in exit_state.absp:
+                    s.abs[key] = exit_state.absp[key]
+                if not (root in params and "." not in key) and p[0] < 0 and key not in exit_state.absp:
                     # a stream held in an object (self.x / param.x) may end before where it was
                     s.wild = True
             elif self.is_fresh_local(root, f):
@@ -2138,6 +2203,7 @@ class _Run:
         self.accs = []          # stack of [state] accumulators (try bodies)
         self.seek_events = 0
         self.seen_states = {}   # id(node) -> joined state before the node (on demand via sa.hooks)
+        self._read_before = {}  # id(read call) -> (key, position interval before the read) of the latest evaluation
         self.cut = set()        # id(stmt): the path ends here (treated like raise)
         self.assume_true = set()  # id(test expr): loops/ifs with this test never take the false edge
         self.skip_calls = set()   # id(call): the call is treated as having no stream effect
@@ -2147,15 +2213,20 @@ class _Run:
     # ------------------------------------------------------------------ state updates
     def _setpos(self, st, key, p):
         st.pos[key] = p
+        st.tok[key] = _new_token()
+        st.absp.pop(key, None)
         for lw in self.lows:
             lw[key] = min(lw.get(key, INF), p[0])
 
     def _advance(self, st, key, d, low=None):
         p = st.p(key)
+        ab = st.absp.get(key)
         if low is not None:
             for lw in self.lows:
                 lw[key] = min(lw.get(key, INF), p[0] + low)
         self._setpos(st, key, iv_add(p, d))
+        if ab is not None:
+            st.absp[key] = (ab[0], ab[1] + d[0], ab[2] + d[1])
 
     def _kill(self, st, text):
         """`text` (a name or dotted attribute) is re-bound"""
@@ -2218,6 +2289,10 @@ class _Run:
                         if len(rets) == 1 and rets[0].value is not None and sn is not None and len(pm.node.body) <= 2:
                             return self.pos_value(rets[0].value, st, (sn, recv_text, cls, pm))
             return None
+        if isinstance(e, ast.BinOp) and isinstance(e.op, ast.Sub) and subst is None:
+            pb = self._pushback(e, st)
+            if pb is not None:
+                return pb
         if isinstance(e, ast.BinOp) and isinstance(e.op, (ast.Add, ast.Sub)):
             l = self.pos_value(e.left, st, subst)
             if l is not None:
@@ -2231,6 +2306,33 @@ class _Run:
                     d = self._int(e.left, subst)
                     return (r[0], r[1] + d[0], r[2] + d[1])
         return None
+
+    def _pushback(self, e, st):
+        """`P - len(s[1])` where P = S.tell() taken right after `z = S.read(n)` and s = z.split(SEP, 1):
+        the part after the first separator is at most len(z) - len(SEP) long, so the value is
+        >= position before the read + len(SEP)  (un-reading the remainder of a chunk)."""
+        f = self.f
+        P, r = e.left, e.right
+        if not (isinstance(P, ast.Name) and isinstance(r, ast.Call) and isinstance(r.func, ast.Name) and r.func.id == "len" and len(r.args) == 1):
+            return None
+        x = r.args[0]
+        if not (isinstance(x, ast.Subscript) and isinstance(x.value, ast.Name) and isinstance(x.slice, ast.Constant) and x.slice.value in (1, -1)):
+            return None
+        sdef = self.cg.dominating_def(x.value, f)
+        if not (isinstance(sdef, ast.Call) and isinstance(sdef.func, ast.Attribute) and sdef.func.attr == "split" and isinstance(sdef.func.value, ast.Name)
+                and len(sdef.args) == 2 and isinstance(sdef.args[1], ast.Constant) and sdef.args[1].value == 1):
+            return None
+        sep = self.b.fold(sdef.args[0], f)
+        if not (isinstance(sep, (bytes, str)) and len(sep) >= 1):
+            return None
+        z = sdef.func.value.id
+        rp = st.saved.get("@read:" + z)
+        pv = st.saved.get(P.id)
+        if rp is None or pv is None or rp[0] != pv[0]:
+            return None
+        if st.stok.get("@read:" + z) is None or st.stok.get("@read:" + z) != st.stok.get(P.id):
+            return None  # the stream moved between the read and the tell()
+        return (pv[0], rp[1] + len(sep), pv[2])
 
     def _int(self, e, subst=None):
         if subst is None:
@@ -2316,7 +2418,8 @@ class _Run:
         if d in self.collections:
             k = "#len:" + d
             if fn.attr in self.SHRINK1:
-                self._advance(st, k, (-1, -1))
+                # dict.pop(key, default) does not raise and may remove nothing
+                self._advance(st, k, (-1, 0) if (fn.attr == "pop" and len(e.args) + len(e.keywords) >= 2) else (-1, -1))
             elif fn.attr in self.GROW or fn.attr in ("clear", "discard", "sort", "reverse", "__setitem__", "__delitem__"):
                 if fn.attr in ("sort", "reverse"):
                     pass
@@ -2420,7 +2523,10 @@ class _Run:
                     # and the empty (EOF) case leaves through the other branch: the read is checked
                     if p[0] >= 0:
                         ne.anch[key] = ne.a(key) + 1
+                    tk = ne.tok.get(key)
                     self._setpos(ne, key, (p[0] + 1, max(p[1], p[0] + 1)))
+                    if tk is not None:
+                        ne.tok[key] = tk  # knowledge was refined, the stream did not move
             a = self.block(s.body, st_t)
             b = self.block(s.orelse, st_f) if s.orelse else Out(fall=st_f)
             return Out(s_join(a.fall, b.fall), s_join(a.brk, b.brk), s_join(a.cont, b.cont), s_join(a.ret, b.ret))
@@ -2485,8 +2591,19 @@ class _Run:
             return self.expr(target, st)
         d = self.sa.key_of(target, self.f) if d in self.sa.aliases(self.f) else d
         self._kill(st, d)
+        st.stok.pop(d, None)
+        st.saved.pop("@read:" + d, None)
+        st.stok.pop("@read:" + d, None)
         if pv is not None:
             st.saved[d] = pv
+            st.stok[d] = st.tok.get(pv[0], 0)
+        # `z = S.read(n)`: remember where the chunk started (for the push-back idiom)
+        if isinstance(value, ast.Call) and isinstance(target, ast.Name):
+            rd = self.sa._as_read(value, self.f)
+            if rd is not None and rd[2] is value and id(value) in self._read_before:
+                key, before = self._read_before[id(value)]
+                st.saved["@read:" + d] = (key, before[0], before[1])
+                st.stok["@read:" + d] = st.tok.get(key, 0)
         # constructor position facts:  h = Cls(stream, ...)
         if isinstance(value, ast.Call):
             for (cnode, tgt, before, mapping) in reversed(self.call_states):
@@ -2796,6 +2913,7 @@ class _Run:
         if meth == "read":
             hi = INF
             lo = 0
+            self._read_before[id(e)] = (key, st.p(key))
             if e.args:
                 b = self.b.eval(e.args[0], self.f)
                 if b[0] >= 0 and b[1] < INF:
@@ -2837,9 +2955,27 @@ class _Run:
                 self._setpos(st, key, (pv[1], pv[2]))
             else:
                 self._setpos(st, key, TOP)
+                pt = self._param_target(e.args[0])
+                if pt is not None:
+                    st.absp[key] = pt
             return st
         self._setpos(st, key, TOP)
         return st
+
+    def _param_target(self, e):
+        """seek target `p`, `p + c`, `p - c` with p a never re-bound parameter -> (p, lo, hi)"""
+        base, d = e, ZERO
+        if isinstance(e, ast.BinOp) and isinstance(e.op, (ast.Add, ast.Sub)) and isinstance(e.left, ast.Name):
+            dv = self._int(e.right)
+            if dv == TOP:
+                return None
+            base, d = e.left, (dv if isinstance(e.op, ast.Add) else iv_neg(dv))
+        if not isinstance(base, ast.Name):
+            return None
+        f = self.f
+        if not any(p.arg == base.id for p in self.cg._params_of(f)) or self.cg._assignments_to_name(f, base.id):
+            return None
+        return (base.id, d[0], d[1])
 
     def _stream_args(self, e, st):
         out = []
@@ -2946,6 +3082,16 @@ class _Run:
         for ckey, (lo, hi, anch, *rest) in summ.keys.items():
             k = mapping.get(ckey)
             if k is None:
+                continue
+            ab = summ.abs.get(ckey)
+            if ab is not None:
+                # the callee leaves the stream at <argument> + [lo, hi]
+                a_expr = self._arg_for_param(e, tgt, ab[0], kind)
+                pv = self.pos_value(a_expr, before) if a_expr is not None else None
+                if pv is not None and pv[0] == k:
+                    self._setpos(st, k, (pv[1] + ab[1], pv[2] + ab[2]))
+                else:
+                    self._setpos(st, k, TOP)
                 continue
             low = rest[0] if rest else min(lo, 0)
             p = before.p(k)
